@@ -93,6 +93,24 @@ func sortKeys(r *rt) []keyDef {
 	return out
 }
 
+// oneReturnHelpers: package-level functions with one named parameter and a
+// body that is a single return of one expression.
+func oneReturnHelpers(r *rt) map[types.Object]*ast.FuncDecl {
+	out := map[types.Object]*ast.FuncDecl{}
+	for _, f := range r.pkg.Syntax {
+		for _, d := range f.Decls {
+			fd, ok := d.(*ast.FuncDecl)
+			if !ok || fd.Recv != nil || fd.Body == nil || len(fd.Body.List) != 1 || fd.Type.Params == nil || len(fd.Type.Params.List) != 1 || len(fd.Type.Params.List[0].Names) != 1 {
+				continue
+			}
+			if ret, isRet := fd.Body.List[0].(*ast.ReturnStmt); isRet && len(ret.Results) == 1 {
+				out[r.pkg.TypesInfo.Defs[fd.Name]] = fd
+			}
+		}
+	}
+	return out
+}
+
 // A projection is an expression over exactly one of the two parameters,
 // canonicalised with the parameter spelled "_".
 type projKind int
@@ -109,6 +127,7 @@ type keyModel struct {
 	projs  map[string]projKind
 	ordTyp map[string]types.Type // type of the operands of an ordered comparison, per projection
 	err    error
+	decls  map[types.Object]*ast.FuncDecl // one-parameter helpers of the package whose body is a single return (rendered through)
 }
 
 type projRef struct {
@@ -126,6 +145,8 @@ func (m *keyModel) fail(format string, a ...any) {
 func (m *keyModel) proj(e ast.Expr) *projRef {
 	used := map[int]bool{}
 	bad := false
+	subst := map[types.Object]string{}
+	depth := 0
 	var render func(ast.Expr) string
 	render = func(e ast.Expr) string {
 		switch x := e.(type) {
@@ -135,6 +156,9 @@ func (m *keyModel) proj(e ast.Expr) *projRef {
 			obj := m.info.Uses[x]
 			if obj == nil {
 				obj = m.info.Defs[x]
+			}
+			if s, ok := subst[obj]; ok {
+				return s
 			}
 			switch {
 			case obj == m.p1:
@@ -166,6 +190,27 @@ func (m *keyModel) proj(e ast.Expr) *projRef {
 			if tv, ok := m.info.Types[x.Fun]; ok && tv.IsType() && len(x.Args) == 1 {
 				return render(x.Args[0]) // a conversion does not change which projection this is
 			}
+			// a one-parameter helper whose body is a single return: the projection is its body
+			// (so that an inlined and a called occurrence of one helper are one projection)
+			if id, isID := x.Fun.(*ast.Ident); isID && len(x.Args) == 1 && depth < 3 {
+				if fd := m.decls[m.info.Uses[id]]; fd != nil {
+					if ret, isRet := fd.Body.List[0].(*ast.ReturnStmt); isRet && len(ret.Results) == 1 {
+						pobj := m.info.Defs[fd.Type.Params.List[0].Names[0]]
+						arg := render(x.Args[0])
+						old, had := subst[pobj]
+						subst[pobj] = arg
+						depth++
+						out := render(ret.Results[0])
+						depth--
+						if had {
+							subst[pobj] = old
+						} else {
+							delete(subst, pobj)
+						}
+						return "(" + out + ")"
+					}
+				}
+			}
 			var args []string
 			for _, a := range x.Args {
 				args = append(args, render(a))
@@ -179,11 +224,21 @@ func (m *keyModel) proj(e ast.Expr) *projRef {
 			return x.Op.String() + render(x.X)
 		case *ast.IndexExpr:
 			return render(x.X) + "[" + render(x.Index) + "]"
+		case *ast.BinaryExpr:
+			// a nil test of a projection is a (boolean) projection: the body of an inlined predicate helper
+			if x.Op == token.EQL || x.Op == token.NEQ {
+				if isNilIdent(m.info, x.Y) {
+					return "(" + render(x.X) + x.Op.String() + "nil)"
+				}
+				if isNilIdent(m.info, x.X) {
+					return "(" + render(x.Y) + x.Op.String() + "nil)"
+				}
+			}
 		}
 		bad = true
 		return "?"
 	}
-	s := render(e)
+	s := canonParens(render(e))
 	if bad || len(used) != 1 {
 		return nil
 	}
@@ -191,6 +246,53 @@ func (m *keyModel) proj(e ast.Expr) *projRef {
 		return &projRef{p, s}
 	}
 	return nil
+}
+
+// canonParens removes grouping parentheses that do not change the reading of a
+// rendered projection: a pair around the whole string, around another pair, or
+// around a plain selector chain. Call parentheses (preceded by a name) stay.
+func canonParens(s string) string {
+	for {
+		match := map[int]int{}
+		var st []int
+		for i, c := range s {
+			switch c {
+			case '(':
+				st = append(st, i)
+			case ')':
+				if len(st) > 0 {
+					match[st[len(st)-1]] = i
+					st = st[:len(st)-1]
+				}
+			}
+		}
+		isName := func(c byte) bool {
+			return c == '_' || c == '.' || c >= '0' && c <= '9' || c >= 'a' && c <= 'z' || c >= 'A' && c <= 'Z' || c == ']'
+		}
+		drop := -1
+		for i, j := range match {
+			if i > 0 && (isName(s[i-1]) || s[i-1] == ')') {
+				continue // call parentheses
+			}
+			inner := s[i+1 : j]
+			plain := inner != ""
+			for k := 0; k < len(inner); k++ {
+				if !isName(inner[k]) {
+					plain = false
+				}
+			}
+			if (i == 0 && j == len(s)-1) || plain || (match[i+1] == j-1 && s[i+1] == '(') {
+				if drop < 0 || i < drop {
+					drop = i
+				}
+			}
+		}
+		if drop < 0 {
+			return s
+		}
+		j := match[drop]
+		s = s[:drop] + s[drop+1:j] + s[j+1:]
+	}
 }
 
 // abstract state of one element: value per projection
@@ -472,7 +574,7 @@ func c19S1(l *core.Ledger, r *rt) {
 		}
 		p1, p2 = r.pkg.TypesInfo.Defs[names[0]], r.pkg.TypesInfo.Defs[names[1]]
 		// pass 1: discover projections with a dummy evaluation over all-zero state
-		m := &keyModel{info: r.pkg.TypesInfo, p1: p1, p2: p2, locals: map[types.Object]*projRef{}, projs: map[string]projKind{}, ordTyp: map[string]types.Type{}}
+		m := &keyModel{info: r.pkg.TypesInfo, p1: p1, p2: p2, locals: map[types.Object]*projRef{}, projs: map[string]projKind{}, ordTyp: map[string]types.Type{}, decls: oneReturnHelpers(r)}
 		// discovery needs to traverse all branches: evaluate over a small set of states repeatedly until stable
 		call := func(a, b absElem) (bool, bool) {
 			ev := &keyEval{m: m, a: a, b: b}
